@@ -22,12 +22,14 @@ CLAIMED = None  # filled from MANIFEST
 BOUNDED_KINDS = {
     'C09': {'is_num_backup', 'next_backup_num', 'relative_spellings', 'symlinked_destinations', 'next_backup_num_extreme', 'non_backup', 'parse_backup'},
     'C15': {'parse_reflink'},
-    'C16': {'reject_reflink', 'reject_backup', 'reject_driver', 'parse_driver'},
+    'C16': {'reject_reflink', 'reject_backup', 'reject_driver', 'parse_driver', 'glob_missing'},
+    'C02': {'glob_expansion'},
 }
 BOUNDED_WHAT = {
     'C09': 'libxcp::backup::{is_num_backup, next_backup_num, has_backup, get_backup_path} (string/regex/ReadDir code outside Verus) and the --backup value table (Backup::from_str)',
     'C15': 'the --reflink value table (Reflink::from_str: string matching, outside Verus)',
-    'C16': 'rejection of unknown --reflink/--backup/--driver values and the --driver table (FromStr impls: string matching, outside Verus)',
+    'C16': 'rejection of unknown --reflink/--backup/--driver values and the --driver table (FromStr impls: string matching, outside Verus); expand_globs (iterator adapters over the glob crate, outside Verus): a pattern that selects nothing is a missing source',
+    'C02': 'expand_globs (iterator adapters over the glob crate, outside Verus): the expansion is the concatenation, in command-line order, of what each pattern selects',
 }
 
 
